@@ -70,6 +70,8 @@ static json run_behaviours(const json& job)
             return e;
         };
         std::vector<expression_t> hs{build(0)};
+        size_t step = 0;
+        bool lawbroken = false;
         for (auto& op : cs["ops"]) {
             const std::string o = op["op"];
             size_t h = op["h"].get<size_t>() - 1;
@@ -77,10 +79,36 @@ static json run_behaviours(const json& job)
             else if (o == "clone_deeper") hs.push_back(hs[h].clone_deeper());
             else if (o == "subst") hs.push_back(hs[h].subst(syms[op["s"].get<std::string>()], hs[op["x"].get<size_t>() - 1]));
             else if (o == "set_child") hs[h][op["i"].get<uint32_t>() - 1] = hs[op["x"].get<size_t>() - 1];
+            else if (o == "child") { const expression_t& ch = hs[h]; hs.push_back(ch[op["i"].get<uint32_t>() - 1]); }       // const accessor: a handle copy
+            // the statement's laws in EVERY intermediate state: equal() is structural equality of the two trees, both ways;
+            // a deep clone is equal to its original (both ways) and has the same tree
+            ++step;
+            std::vector<json> tr;
+            for (auto& x : hs) tr.push_back(tree_of(x));
+            std::string law;
+            for (size_t a = 0; a < hs.size() && law.empty(); ++a) {
+                for (size_t b = 0; b < hs.size() && law.empty(); ++b)
+                    if (hs[a].equal(hs[b]) != (tr[a] == tr[b]))
+                        law = "equal(handle " + std::to_string(a + 1) + ", handle " + std::to_string(b + 1) + ") = " + (hs[a].equal(hs[b]) ? "true" : "false") + " but the trees are " + (tr[a] == tr[b] ? "the same" : "different");
+                if (!law.empty()) break;
+                expression_t d = hs[a].clone_deeper();
+                if (!d.equal(hs[a]) || !hs[a].equal(d)) law = "a deep clone of handle " + std::to_string(a + 1) + " is not equal to its original";
+                else if (tree_of(d) != tr[a]) law = "a deep clone of handle " + std::to_string(a + 1) + " has a different tree";
+            }
+            if (!law.empty()) {
+                if (mism.size() < 10) mism.push_back(json{{"ops", cs["ops"]}, {"heap0", cs["heap0"]}, {"law", law}, {"step", step}});
+                lawbroken = true;
+                break;
+            }
         }
+        if (lawbroken) continue;
         json trees = json::array(), sh = json::array();
         for (auto& x : hs) trees.push_back(tree_of(x));
         for (auto& x : hs) { json row = json::array(); for (auto& y : hs) row.push_back(share(x, y)); sh.push_back(row); }
+        json eq = json::array();
+        for (auto& x : hs) { json row = json::array(); for (auto& y : hs) row.push_back(x.equal(y)); eq.push_back(row); }
+        if (cs.contains("eq") && eq != cs["eq"] && mism.size() < 10)
+            mism.push_back(json{{"ops", cs["ops"]}, {"heap0", cs["heap0"]}, {"law", "equal() matrix differs from the spec's tree equality"}, {"expected_eq", cs["eq"]}, {"eq", eq}});
         if ((trees != cs["trees"] || sh != cs["share"]) && mism.size() < 10)
             mism.push_back(json{{"ops", cs["ops"]}, {"heap0", cs["heap0"]}, {"expected_trees", cs["trees"]}, {"trees", trees}, {"expected_share", cs["share"]}, {"share", sh}});
     }
